@@ -1,6 +1,6 @@
 #!/bin/bash
-# Offline setup: nothing to download.  Warm the build cache for the harness
-# module and the most used white-box packages so that quick checks start fast.
+# Offline setup: nothing to download.  Warm the build cache (toolchain std, grpc, harness
+# packages; with and without -race) so that quick checks start fast.
 set -u
 cd "$(dirname "$0")/.."
 . scripts/env.sh
@@ -9,5 +9,8 @@ chmod +x check scripts/*.sh scripts/*.py 2>/dev/null
 echo "go: $($GO version)"
 ( cd h && $GO build ./... 2>&1 | tail -5 )
 ( cd h && $GO test -vet=off -count=1 -run '^$' ./... >/dev/null 2>&1 )
+( cd h && $GO test -vet=off -race -count=1 -run '^$' ./c01_flow/ ./c13_maxstreams/ ./c31_serializer/ >/dev/null 2>&1 )
+( cd /repo && $GO test -vet=off -count=1 -run '^$' ./internal/transport/ ./internal/xds/... ./balancer/... >/dev/null 2>&1 )
+( cd /repo && $GO test -vet=off -race -count=1 -run '^$' ./internal/transport/ >/dev/null 2>&1 )
 echo "setup done"
 exit 0
